@@ -454,6 +454,36 @@ Proof.
     apply Permutation_app_inv_l in HP. apply Permutation_nil in HP. subst t. apply app_nil_r.
 Qed.
 
+(* transitions are only ever appended *)
+Lemma slog_step_extends : forall g ths G0 i, exists u, slog (cst (cgstep g ths G0 i)) = slog (cst G0) ++ u.
+Proof.
+  intros g ths G0 i. unfold cgstep.
+  destruct (nth_error ths i) as [k|]; [|exists []; rewrite app_nil_r; reflexivity].
+  destruct (nth_error (cpcs G0) i) as [p|]; [|exists []; rewrite app_nil_r; reflexivity].
+  destruct p as [| |c|ch r|r]; cbn [cstep].
+  - destruct k as [m|m c|m].
+    + destruct (get_read m (cst G0)); exists []; rewrite app_nil_r; reflexivity.
+    + unfold add. cbn. eexists. reflexivity.
+    + destruct (find m (sreg (cst G0))) eqn:E; [|exists []; rewrite app_nil_r; reflexivity].
+      unfold rem. rewrite E. cbn. eexists. reflexivity.
+  - destruct k as [m|m c|m]; try (exists []; rewrite app_nil_r; reflexivity).
+    unfold get_make. destruct (invoke_fb g m); [exists []; rewrite app_nil_r; reflexivity|].
+    destruct (mem_str m (fac_ok g)); exists []; rewrite app_nil_r; reflexivity.
+  - destruct k as [m|m c'|m]; try (exists []; rewrite app_nil_r; reflexivity).
+    destruct (find m (sreg (cst G0))) eqn:E; [exists []; rewrite app_nil_r; reflexivity|].
+    unfold get_insert. rewrite E. cbn. eexists. reflexivity.
+  - exists []. rewrite app_nil_r. reflexivity.
+  - exists []. rewrite app_nil_r. reflexivity.
+Qed.
+
+Lemma slog_extends : forall g ths sched G0, exists e, slog (cst (cgrun g ths sched G0)) = slog (cst G0) ++ e.
+Proof.
+  intros g ths sched. induction sched as [|i sched IH]; intros G0; cbn.
+  - exists []. rewrite app_nil_r. reflexivity.
+  - destruct (IH (cgstep g ths G0 i)) as [e He]. fold (cgrun g ths sched (cgstep g ths G0 i)). rewrite He.
+    destruct (slog_step_extends g ths G0 i) as [u Hu]. rewrite Hu. exists (u ++ e). rewrite app_assoc. reflexivity.
+Qed.
+
 Theorem judge_agrees_ok_schedcb : forall g first pre ths sched obs cbs final,
   sched_guard first pre ths = true ->
   agrees (KSchedCb g first pre ths sched obs cbs final) = true ->
@@ -491,9 +521,10 @@ Proof.
     destruct (same_get_name_spec _ _ Esn) as [_ Hall].
     assert (Habs : find n (sreg s0) = None) by (rewrite Hm; exact Epm).
     pose proof (HO n ths s0 sched Hall Habs Efb Hdone) as HOO. fold G in HOO. rewrite HOO. exact HS.
-  - apply implb_true_iff. intros Hnd. apply nodup_changes_NoDup in Hnd.
-    apply NoDup_nodup_changes. eapply Permutation_NoDup in Hnd; [|exact HP]. rewrite Ht in Hnd.
-    eapply NoDup_app_tail. exact Hnd.
+  - destruct (slog_extends g ths sched (cginit s0 ths)) as [e He]. fold G in He. cbn [cginit cst] in He.
+    rewrite He, skipn_length_app. rewrite He, Ht in HP. apply Permutation_app_inv_l in HP.
+    apply implb_true_iff. intros Hnd. apply nodup_changes_NoDup in Hnd.
+    apply NoDup_nodup_changes. eapply Permutation_NoDup; [exact HP|exact Hnd].
 Qed.
 
 (* "no change is reported twice" cannot be demanded outright: three overlapping Add(n, 5) commit --
@@ -539,17 +570,196 @@ Proof.
   destruct k as [m f1 f2| |]; try discriminate. apply String.eqb_eq in E. subst. eauto.
 Qed.
 
+(* the per-call oracle along every run of RouterCbW.v's LTS (the invariant of CbOracle again) *)
+Definition exp1W (k : wkind) (p : cpc) : list change :=
+  match p with
+  | CDone r =>
+      match k, r with
+      | WTAdd n c, RClient old => [mkChange n old c false]
+      | WTRemove n, RClient old => if old =? nil_client then [] else [mkChange n old nil_client false]
+      | _, _ => []
+      end
+  | _ => []
+  end.
+
+Fixpoint exp_ofW (ths : list wkind) (pcs : list cpc) : list change :=
+  match ths, pcs with
+  | k :: ths', p :: pcs' => exp1W k p ++ exp_ofW ths' pcs'
+  | _, _ => []
+  end.
+
+Lemma expected_cbsW_exp : forall ths pcs rs, cpcs_results pcs = Some rs -> expected_cbsW ths rs = exp_ofW ths pcs.
+Proof.
+  induction ths as [|k ths IH]; intros pcs rs H.
+  - destruct rs; reflexivity.
+  - destruct pcs as [|p pcs].
+    + cbn in H. inversion H. destruct k; reflexivity.
+    + unfold cpcs_results in H. cbn [fold_right] in H. fold (cpcs_results pcs) in H.
+      destruct p; try discriminate. destruct (cpcs_results pcs) as [l|] eqn:El; [|discriminate].
+      inversion H; subst rs. cbn [exp_ofW exp1W]. specialize (IH pcs l El).
+      destruct k as [n fbo fao|n c|n]; destruct r as [old|b|gr]; cbn [expected_cbsW]; rewrite IH; try reflexivity.
+      destruct (old =? nil_client); reflexivity.
+Qed.
+
+Lemma exp_updW : forall ths pcs i k p p', nth_error ths i = Some k -> nth_error pcs i = Some p ->
+  Permutation (exp1W k p ++ exp_ofW ths (upd i p' pcs)) (exp1W k p' ++ exp_ofW ths pcs).
+Proof.
+  induction ths as [|k0 ths IH]; intros pcs i k p p' Hk Hp.
+  - destruct i; discriminate.
+  - destruct pcs as [|q pcs]; [destruct i; discriminate|].
+    destruct i as [|i]; cbn in Hk, Hp.
+    + inversion Hk; inversion Hp; subst. cbn [upd exp_ofW].
+      rewrite !app_assoc. apply Permutation_app_tail. apply Permutation_app_comm.
+    + cbn [upd exp_ofW]. specialize (IH pcs i k p p' Hk Hp).
+      rewrite !app_assoc.
+      eapply perm_trans. { apply Permutation_app_tail. apply Permutation_app_comm. }
+      rewrite <- !app_assoc. eapply perm_trans. { apply Permutation_app_head. exact IH. }
+      rewrite !app_assoc. apply Permutation_app_tail. apply Permutation_app_comm.
+Qed.
+
+Lemma invoke_w_nonnil : forall b x c, fst (invoke_w b x) = Some c -> c <> nil_client.
+Proof.
+  intros [|] [| |c0|c0] c; cbn; try discriminate. destruct (c0 =? nil_client) eqn:E; cbn; [discriminate|].
+  intros H. inversion H; subst. apply Z.eqb_neq. exact E.
+Qed.
+
+Section CbOracleW.
+  Variable o : wopts.
+  Variable ths : list wkind.
+  Variable base : list change.
+  Hypothesis adds_nonnil : forall n c, In (WTAdd n c) ths -> c <> nil_client.
+
+  Definition wfcbW (k : wkind) (ch : change) (r : rres) : Prop :=
+    exp1W k (CDone r) = [ch] \/ (exp1W k (CDone r) = [] /\ autoW_ok o ths ch = true).
+
+  Definition wfpW (k : wkind) (p : cpc) : Prop :=
+    match p with
+    | CMade c => exists n fbo fao, k = WTGet n fbo fao /\ fst (invoke_w (w_fb o) fbo) = None
+                                   /\ fst (invoke_w (w_fac o) fao) = Some c
+    | CCb ch r => wfcbW k ch r
+    | _ => True
+    end.
+
+  Definition MInvW (G : cgstate) : Prop :=
+    (exists t autos, ccbs G = base ++ t /\ Permutation t (exp_ofW ths (cpcs G) ++ autos)
+                     /\ Forall (fun ch => autoW_ok o ths ch = true) autos) /\
+    (forall i k p, nth_error ths i = Some k -> nth_error (cpcs G) i = Some p -> wfpW k p) /\
+    (forall k c, find k (sreg (cst G)) = Some c -> c <> nil_client).
+
+  Lemma MInvW_quiet : forall s cbs pcs i k p s' p',
+    MInvW (mkCG s cbs pcs) -> nth_error ths i = Some k -> nth_error pcs i = Some p ->
+    exp1W k p = [] -> exp1W k p' = [] -> wfpW k p' ->
+    (forall k c, find k (sreg s') = Some c -> c <> nil_client) ->
+    MInvW (mkCG s' cbs (upd i p' pcs)).
+  Proof.
+    intros s cbs pcs i k p s' p' [[t [autos [Hc [HP HA]]]] [Hw _]] Hk Hp He He' Hw' Hr.
+    cbn [cst ccbs cpcs] in *. split; [|split]; cbn [cst ccbs cpcs]; auto.
+    - exists t, autos. split; auto. split; auto.
+      pose proof (exp_updW ths pcs i k p p' Hk Hp) as HU. rewrite He, He' in HU. cbn in HU.
+      eapply perm_trans; [exact HP|]. apply Permutation_app_tail. symmetry. exact HU.
+    - intros j k' q Hk' Hq. rewrite nth_error_upd in Hq. destruct (Nat.eqb_spec i j) as [->|Hne].
+      + rewrite Hp in Hq. inversion Hq; subst q. rewrite Hk in Hk'. inversion Hk'; subst k'. exact Hw'.
+      + eapply Hw; eauto.
+  Qed.
+
+  Lemma MInvW_step : forall G i, MInvW G -> MInvW (cgstepW o ths G i).
+  Proof.
+    intros [s cbs pcs] i HI. unfold cgstepW. cbn [cst ccbs cpcs].
+    destruct (nth_error ths i) as [k|] eqn:Ek; [|exact HI].
+    destruct (nth_error pcs i) as [p|] eqn:Ep; [|exact HI].
+    pose proof HI as [[t [autos [Hc [HP HA]]]] [Hw Hr]]. cbn [cst ccbs cpcs] in *.
+    assert (Hstut : MInvW (mkCG s cbs (upd i p pcs))) by (rewrite upd_same; auto).
+    destruct p as [| |c|ch r|r].
+    - (* CStart *) destruct k as [n fbo fao|n c|n]; cbn [cstepW].
+      + unfold get_read. destruct (find n (sreg s)); eapply MInvW_quiet; eauto; try reflexivity; try exact I.
+      + unfold add. eapply MInvW_quiet; eauto; try reflexivity.
+        * left. reflexivity.
+        * cbn [sreg]. intros k c0. rewrite find_set. destruct (String.eqb k n); [|apply Hr].
+          intros H. inversion H; subst. eapply adds_nonnil. eapply nth_error_In. exact Ek.
+      + destruct (find n (sreg s)) as [old|] eqn:Ef.
+        * unfold rem. rewrite Ef. cbn [fst]. eapply MInvW_quiet; eauto; try reflexivity.
+          -- left. cbn [exp1W]. assert (Ho : (old =? nil_client) = false) by (apply Z.eqb_neq; eapply Hr; eauto).
+             rewrite Ho. reflexivity.
+          -- cbn [sreg]. intros k c0. rewrite find_remove. destruct (String.eqb k n); [discriminate|apply Hr].
+        * eapply MInvW_quiet; eauto; try reflexivity; try exact I.
+    - (* CMissed *) destruct k as [n fbo fao|n c|n]; cbn [cstepW]; try exact Hstut.
+      destruct (fst (invoke_w (w_fb o) fbo)) eqn:Efb; [eapply MInvW_quiet; eauto; try reflexivity; try exact I|].
+      destruct (fst (invoke_w (w_fac o) fao)) eqn:Efac; eapply MInvW_quiet; eauto; try reflexivity; try exact I.
+      exists n, fbo, fao. auto.
+    - (* CMade *) destruct k as [n fbo fao|n c'|n]; cbn [cstepW]; try exact Hstut.
+      destruct (find n (sreg s)) as [c2|] eqn:Ef; [eapply MInvW_quiet; eauto; try reflexivity; try exact I|].
+      unfold get_insert. rewrite Ef. cbn [fst].
+      destruct (Hw i _ _ Ek Ep) as [n' [fbo' [fao' [Hn' [Hfb Hfac]]]]]. inversion Hn'; subst n' fbo' fao'.
+      assert (Hcz : c <> nil_client) by (eapply invoke_w_nonnil; eauto).
+      eapply MInvW_quiet; eauto; try reflexivity.
+      + right. split; [reflexivity|]. unfold autoW_ok. cbn [cauto cold cnew cname]. cbn [andb Z.eqb nil_client].
+        apply existsb_exists. exists (WTGet n fbo fao). split; [eapply nth_error_In; eauto|].
+        rewrite String.eqb_refl. unfold fb_yield, fac_yield. rewrite <- !invoke_w_fst, Hfb, Hfac. cbn. apply Z.eqb_refl.
+      + cbn [sreg]. intros k c0. rewrite find_set. destruct (String.eqb k n); [|apply Hr].
+        intros H. inversion H; subst. exact Hcz.
+    - (* CCb: the callback is delivered *) cbn [cstepW].
+      pose proof (Hw i _ _ Ek Ep) as Hcb. cbn [wfpW] in Hcb.
+      pose proof (exp_updW ths pcs i k (CCb ch r) (CDone r) Ek Ep) as HU.
+      change (exp1W k (CCb ch r)) with (@nil change) in HU. cbn [app] in HU.
+      split; [|split]; cbn [cst ccbs cpcs]; auto.
+      + destruct Hcb as [He|[He Ha]].
+        * exists (t ++ [ch]), autos. split; [rewrite Hc, app_assoc; reflexivity|]. split; auto.
+          rewrite He in HU. eapply perm_trans. { apply Permutation_app_tail. exact HP. }
+          eapply perm_trans. { apply Permutation_app_comm. } cbn [app].
+          eapply perm_trans. 2:{ apply Permutation_app_tail. symmetry. exact HU. }
+          reflexivity.
+        * exists (t ++ [ch]), (autos ++ [ch]). split; [rewrite Hc, app_assoc; reflexivity|]. split.
+          -- rewrite He in HU. cbn [app] in HU. rewrite app_assoc. apply Permutation_app_tail.
+             eapply perm_trans; [exact HP|]. apply Permutation_app_tail. symmetry. exact HU.
+          -- apply Forall_app. split; auto.
+      + intros j k' q Hk' Hq. rewrite nth_error_upd in Hq. destruct (Nat.eqb_spec i j) as [->|Hne].
+        * rewrite Ep in Hq. inversion Hq; subst q. exact I.
+        * eapply Hw; eauto.
+    - exact Hstut.
+  Qed.
+
+  Lemma MInvW_run : forall sched G, MInvW G -> MInvW (cgrunW o ths sched G).
+  Proof. induction sched as [|i sched IH]; intros G H; cbn; auto. apply IH, MInvW_step, H. Qed.
+End CbOracleW.
+
+Lemma exp_ofW_start : forall ths, exp_ofW ths (map (fun _ => CStart) ths) = [].
+Proof. induction ths; cbn; auto. Qed.
+
+Lemma cbw_multiset_ok_run : forall o ths sched rs,
+  (forall n c, In (WTAdd n c) ths -> c <> nil_client) ->
+  let G := cgrunW o ths sched (cginitW (init 1) ths) in
+  cpcs_results (cpcs G) = Some rs -> cbw_multiset_ok o ths rs (ccbs G) = true.
+Proof.
+  intros o ths sched rs Ha G Hres.
+  assert (H0 : MInvW o ths [] (cginitW (init 1) ths)).
+  { unfold cginitW. split; [|split]; cbn [cst ccbs cpcs init sreg slog]; auto.
+    - exists [], []. rewrite exp_ofW_start. repeat split; auto.
+    - intros i k p _ Hp. apply nth_error_In in Hp. apply in_map_iff in Hp. destruct Hp as [_ [<- _]]. exact I.
+    - intros k c H. discriminate. }
+  destruct (MInvW_run o ths [] Ha sched _ H0) as [[t [autos [Hc [HP HA]]]] _]. fold G in Hc, HP.
+  cbn [app] in Hc. rewrite Hc. unfold cbw_multiset_ok. rewrite (expected_cbsW_exp ths _ rs Hres).
+  destruct (remove_all_complete _ _ _ HP) as [rest [E PR]]. rewrite E.
+  apply forallb_forall. intros ch Hin. rewrite Forall_forall in HA.
+  apply (HA ch). eapply Permutation_in; eauto.
+Qed.
+
 Theorem judge_agrees_ok_schedw : forall o ths sched obs cbs final,
+  C12_guard (KSchedW o ths sched obs cbs final) = true ->
   agrees (KSchedW o ths sched obs cbs final) = true -> C12_ok (KSchedW o ths sched obs cbs final) = true.
 Proof.
-  intros o ths sched obs cbs final. cbn [agrees C12_ok]. unfold schedw_ok.
+  intros o ths sched obs cbs final Hg. cbn [C12_guard] in Hg.
+  assert (Hadds : forall n c, In (WTAdd n c) ths -> c <> nil_client).
+  { intros n c Hin. rewrite forallb_forall in Hg. specialize (Hg _ Hin). cbn in Hg.
+    apply negb_true_iff in Hg. apply Z.eqb_neq in Hg. exact Hg. }
+  cbn [agrees C12_ok]. unfold schedw_ok.
+  pose proof (cbw_multiset_ok_run o ths sched) as HM. cbn zeta in HM.
   set (G := cgrunW o ths sched (cginitW (init 1) ths)).
   destruct (cpcs_results (cpcs G)) as [rs|] eqn:Er; [|discriminate].
   destruct (cpcs_results_spec _ _ Er) as [Hpcs Hdone].
   intros H. apply andb_true_iff in H. destruct H as [H H3]. apply andb_true_iff in H. destruct H as [H1 H2].
   apply (list_eqb_eq rres_eqb rres_eqb_eq) in H1. apply (list_eqb_eq change_eqb change_eqb_eq) in H2. subst obs cbs.
   destruct (callbacks_are_transitions_W o ths (init 1) sched) as [_ HP]. fold G in HP. specialize (HP Hdone).
-  rewrite (perm_eqb_complete _ _ (Permutation_sym HP)). cbn [andb].
+  rewrite (perm_eqb_complete _ _ (Permutation_sym HP)). fold G in HM. rewrite (HM rs Hadds Er). cbn [andb].
   destruct (same_getw_name ths) as [n|] eqn:Esn; [|reflexivity].
   pose proof (same_getw_name_spec _ _ Esn) as Hall.
   destruct (single_commit_W o n ths (init 1) Hall eq_refl sched) as [Hlog [_ [Hc [Hd He]]]]. fold G in Hlog, Hc, Hd, He.
